@@ -351,13 +351,15 @@ def rejectOp {F : Type} [FloatLike F] [Widen F Float] (args : List String) : Opt
       -- oracle: the error carries the rejected value, the state is untouched, the one-shot agrees
       let bad := xs[pos]?
       let cs := match impl, bad with
-        | [e, before, after, _, oneI], some b =>
+        | [e, before, after, _, oneI, extE, extAfter], some b =>
           let want := ["err", "NonPositiveValue", encF64 (FloatLike.toF64 b)]
           (if (toksEq 0 want e).1 then [] else [s!"error-does-not-carry-value({" ".intercalate e})"]) ++
           (if before == after then [] else ["state-changed-by-rejected-append"]) ++
-          (if (toksEq 0 want oneI).1 then [] else ["one-shot-disagrees"])
+          (if (toksEq 0 want oneI).1 then [] else ["one-shot-disagrees"]) ++
+          (if (toksEq 0 want extE).1 then [] else ["extend-error-does-not-carry-value"]) ++
+          (if extAfter == before then [] else ["extend-went-on-after-the-rejected-value"])
         | _, _ => ["malformed-reject-output"]
-      { model := joinBar [errT, stT, stT, ciT, tokOutcome loose one], prop := cs } }
+      { model := joinBar [errT, stT, stT, ciT, tokOutcome loose one, errT, stT], prop := cs } }
 
 /-! ### paired / unpaired -/
 
